@@ -21,7 +21,11 @@ applied to a variant in which two real LogicalLinkControllers move the PDUs with
 collect() / dispatch(); without aggregation that variant is also compared with the model (op
 `collect` = Model.Dlc.collect1), with aggregation it is judged by the monitor only.
 
-Blocking calls / thread schedules are out of scope here (C09 handles wait/notify).
+Blocking calls: a small threaded part runs two or three application threads doing blocking
+send()/recv() on one established pair against a link thread under the deterministic scheduler
+harness/sim/sched.py (default schedule, all single pre-emptions, seeded random schedules) with the
+same monitor plus "no thread left blocked".  This is exploration, not proof; the wait/notify
+discipline itself is C09's subject.
 """
 import itertools
 import logging
@@ -381,6 +385,241 @@ def llc_walk(ck, rng, cfg, steps, agf, link=None, ops=None):
     return r
 
 
+# ---------------------------------------------------------------------------- blocking calls under thread schedules
+class TMonitor(Monitor):
+    """the same reference sliding window for blocking send()/recv() called by several application threads:
+    a message is bytes([thread id, index]); the sending order is the order on the wire, which has to respect
+    the program order of every sending thread and is what the peer's recv() has to return"""
+
+    def __init__(self, ck, cfg, case):
+        Monitor.__init__(self, ck, cfg, case)
+        self.started = {'A': set(), 'B': set()}     # send() has been called with it
+        self.done = {'A': set(), 'B': set()}        # send() returned True for it
+        self.wire = {'A': [], 'B': []}              # data of the I PDUs in wire order
+        self.next_idx = {}
+
+    def emitted(self, sd, s):
+        f = s.split(':')
+        if f[0] != 'I':
+            return Monitor.emitted(self, sd, s)
+        ns, nr, data = int(f[1]), int(f[2]), bytes.fromhex('' if f[3] == '-' else f[3])
+        k = self.i_emitted[sd]
+        if ns != k % 16:
+            self.v('ns-wrong', 'I PDU leaves with N(S) that is not its position in the sending order mod 16 '
+                               '(consecutive I PDUs must carry distinct consecutive numbers)', side=sd, ns=ns, index=k)
+        if data not in self.started[sd]:
+            self.v('i-pdu-data', 'I PDU carries something no thread has sent', side=sd, data=data.hex())
+        elif data in self.wire[sd]:
+            self.v('i-pdu-duplicate', 'a message leaves in two I PDUs', side=sd, data=data.hex())
+        elif len(data) == 2:
+            if data[1] != self.next_idx.get((sd, data[0]), 0):
+                self.v('i-pdu-order', 'messages of one sending thread leave out of program order', side=sd, data=data.hex())
+            self.next_idx[(sd, data[0])] = data[1] + 1
+        self.wire[sd].append(data)
+        self.i_emitted[sd] = k + 1
+        if self.i_emitted[sd] - self.acked[sd] > self.rw[sd]:
+            self.v('window-exceeded-wire', 'more unacknowledged I PDUs outstanding than the receive window announced by the peer',
+                   side=sd, outstanding=self.i_emitted[sd] - self.acked[sd], rw=self.rw[sd])
+        self._nr_emitted(sd, nr)
+
+    def returned(self, sd, m):
+        d = other(sd)
+        k = len(self.got[d])
+        if k >= len(self.wire[d]):
+            self.v('recv-phantom', 'recv() returned a message that was never transmitted (duplicate or invented)', side=sd, msg=m.hex())
+        elif self.wire[d][k] != m:
+            self.v('recv-order', 'recv() returned a message out of sending order / altered', side=sd, index=k,
+                   expected=self.wire[d][k].hex(), got=m.hex())
+        self.got[d].append(m)
+
+    def final(self):
+        for d in 'AB':
+            missing = [m.hex() for m in sorted(self.done[d]) if m not in self.got[d]]
+            if missing or len(self.got[d]) != len(set(self.got[d])):
+                self.v('undelivered', 'messages for which a blocking send() returned True were not returned exactly once by the peer recv()',
+                       side=d, missing=missing, returned=[m.hex() for m in self.got[d]])
+
+
+def threaded_case(ck, cfg, plan, chooser=None, how='default'):
+    """plan = {'A': [n1, n2, ..], 'B': [..]}: one sending thread per entry (ni blocking sends), one receiving
+    thread per side that has something to receive, and a link thread doing what the two llc run loops do
+    (dequeue or sendack on one side, enqueue on the other).  Returns the run record."""
+    import nfc.llcp.tco as tco
+    import nfc.llcp.pdu as pdu
+    from sim import sched as S
+    from sim.dlc_pair import pdu_str
+    sch = S.Sched(chooser, max_steps=6000)
+    case = {'kind': 'threads', 'cfg': list(cfg), 'plan': plan, 'how': how}
+    mon = TMonitor(ck, cfg, case)
+    mon.ops = None
+    rec = {'mon': mon, 'case': case}
+    base_enqueue = tco.TransmissionControlObject.enqueue
+    queued = []
+
+    def spy_enqueue(self, rcvd_pdu):
+        r = base_enqueue(self, rcvd_pdu)
+        queued.append(r)
+        return r
+
+    def violate(key, what, **data):
+        d = dict(case)
+        d.update(data)
+        d['schedule'] = list(sch.schedule)
+        mon.bad.append(key)
+        if len(mon.bad) <= 2:          # the first failures of a run; what follows is their consequence
+            ck.violation(key, what, d)
+
+    mon.v = violate
+    with S.install(sch, [tco]):
+        tco.TransmissionControlObject.enqueue = spy_enqueue
+        try:
+            try:
+                pair = Pair(*cfg)
+            except Exception as e:  # noqa
+                violate('impl-exception:%s:setup' % type(e).__name__, 'connection set-up raised ' + type(e).__name__)
+                return rec
+            ep = pair.ep
+            live = {'apps': 0}
+
+            def sender(sd, tid, n):
+                try:
+                    for i in range(n):
+                        m = bytes([tid, i])
+                        mon.started[sd].add(m)
+                        r = ep[sd].send(m, 0)
+                        if r is True:
+                            mon.done[sd].add(m)
+                        else:
+                            violate('send-failed', 'blocking send() on an established connection returned %r' % (r,), side=sd)
+                except LlcpError as e:
+                    violate('send-failed', 'blocking send() on an established connection raised errno %d' % e.errno, side=sd)
+                except S.Abort:
+                    raise
+                except Exception as e:  # noqa
+                    violate('impl-exception:%s:send' % type(e).__name__, 'blocking send() raised ' + type(e).__name__, side=sd)
+                finally:
+                    live['apps'] -= 1
+
+            def receiver(sd, n):
+                try:
+                    for _ in range(n):
+                        m = ep[sd].recv()
+                        if m is None:
+                            violate('recv-none', 'blocking recv() on an established connection returned None', side=sd)
+                            break
+                        mon.returned(sd, bytes(m))
+                except LlcpError as e:
+                    violate('recv-failed', 'blocking recv() on an established connection raised errno %d' % e.errno, side=sd)
+                except S.Abort:
+                    raise
+                except Exception as e:  # noqa
+                    violate('impl-exception:%s:recv' % type(e).__name__, 'blocking recv() raised ' + type(e).__name__, side=sd)
+                finally:
+                    live['apps'] -= 1
+
+            idle = sch.threading.Condition()
+
+            def link():
+                quiet = 0
+                try:
+                    for _ in range(400):
+                        moved = False
+                        for sd in 'AB':
+                            x, y = ep[sd], ep[other(sd)]
+                            p = x.dequeue(2175, 0)
+                            if p is None:
+                                p = x.sendack()
+                            if p is None:
+                                continue
+                            moved = True
+                            raw = pdu.encode(p)
+                            s = pdu_str(pdu.decode(raw))
+                            mon.emitted(sd, s)
+                            del queued[:]
+                            y.enqueue(pdu.decode(raw))
+                            res = 'ack'
+                            if s.startswith('I:'):
+                                res = 'rejected' if not queued else ('accepted' if queued[0] else 'discarded')
+                            mon.delivered(other(sd), s, res)
+                        quiet = 0 if moved else quiet + 1
+                        if live['apps'] == 0 and quiet >= 2:
+                            return
+                        if quiet >= 6:           # nothing moves although application threads are unfinished
+                            return
+                        with idle:               # the link turn-around: lets every runnable application thread run
+                            idle.wait(0.001)
+                except S.Abort:
+                    raise
+                except Exception as e:  # noqa
+                    violate('impl-exception:%s:link' % type(e).__name__, 'dequeue/sendack/enqueue raised %s: %s' % (type(e).__name__, str(e)[:80]))
+
+            tid = 0
+            for sd in 'AB':
+                for n in plan.get(sd, []):
+                    live['apps'] += 1
+                    sch.spawn(sender, 'send-%s%d' % (sd, tid), (sd, tid, n))
+                    tid += 1
+            for sd in 'AB':
+                n = sum(plan.get(other(sd), []))
+                if n:
+                    live['apps'] += 1
+                    sch.spawn(receiver, 'recv-' + sd, (sd, n))
+            sch.spawn(link, 'link')
+            blocked = sch.run()
+            rec['schedule'] = list(sch.schedule)
+            rec['enabled'] = [list(e) for e in sch.enabled_log]
+            if sch.livelock:
+                violate('livelock', 'the schedule did not terminate within the step bound')
+            elif blocked and not mon.bad:
+                violate('thread-blocked', 'application thread(s) still blocked after the link went quiet',
+                        blocked=[sch.describe(b) for b in blocked])
+            for r in sch.recs:
+                if r.exc is not None and not mon.bad:
+                    violate('impl-exception:%s:thread' % type(r.exc).__name__, 'thread %s died with %s' % (r.name, type(r.exc).__name__))
+            if not mon.bad:
+                mon.final()
+                for sd in 'AB':
+                    if not ep[sd].state.ESTABLISHED:
+                        violate('left-established', 'a connection left the ESTABLISHED state without close()', side=sd)
+            sch.shutdown()
+        finally:
+            tco.TransmissionControlObject.enqueue = base_enqueue
+    return rec
+
+
+def threaded_explore(ck, cfg, plan, budget, nrandom):
+    """default schedule, every single pre-emption (evenly sampled down to the budget), seeded random schedules"""
+    import random
+    from sim import sched as S
+    runs = 0
+    base = threaded_case(ck, cfg, plan)
+    runs += 1
+    nmsg = sum(plan.get('A', [])) + sum(plan.get('B', []))
+    ck.case(('threads', tuple(cfg), repr(plan), 'default'), True,
+            {'kind': 'threads', 'cfg': list(cfg), 'plan': plan, 'steps': len(base.get('schedule', []))})
+    if base['mon'].bad or 'schedule' not in base:
+        return runs
+    singles = [(i, a) for i in range(len(base['schedule'])) for a in base['enabled'][i] if a != base['schedule'][i]]
+    if len(singles) > budget:
+        stride = len(singles) / float(budget)
+        singles = [singles[int(k * stride)] for k in range(budget)]
+    for i, a in singles:
+        r = threaded_case(ck, cfg, plan, S.Deviations({i: a}), how='preempt %d->T%d' % (i, a))
+        runs += 1
+        ck.case(('threads', tuple(cfg), repr(plan), i, a), True)
+        if r['mon'].bad:
+            return runs
+    for _ in range(nrandom):
+        seed = ck.rng.randrange(1 << 30)
+        r = threaded_case(ck, cfg, plan, S.RandomChooser(random.Random(seed), ck.rng.choice([0.1, 0.25, 0.5])), how='random %d' % seed)
+        runs += 1
+        ck.case(('threads', tuple(cfg), repr(plan), 'random', seed), True)
+        if r['mon'].bad:
+            return runs
+    ck.count('thread-messages', nmsg * runs)
+    return runs
+
+
 # ---------------------------------------------------------------------------- main
 EXH_ALPHABET = ['send A 61', 'send B 62', 'recv A', 'recv B', 'deq A 128 0', 'deq B 128 0', 'ack A', 'ack B',
                 'deliver A', 'deliver B', 'busy B 1']
@@ -482,7 +721,11 @@ def main():
     if ck.replay:
         import json
         case = json.load(open(ck.replay))['case']
-        if str(case.get('kind', '')).startswith('llc'):
+        if case.get('kind') == 'threads':
+            from sim import sched as S
+            threaded_case(ck, tuple(case['cfg']), case['plan'], S.Replay(case.get('schedule', [])), how='replay')
+            ck.case(('threads-replay',), True)
+        elif str(case.get('kind', '')).startswith('llc'):
             r = llc_walk(ck, rng, tuple(case['cfg']), 0, tuple(case['agf']), tuple(case['link_miu']), case.get('ops', []))
             if r.compare:
                 finish_run(r, True)
@@ -627,6 +870,18 @@ def main():
     flush()
     ck.cov['traces_validated_against_impl'] = stats['runs'] - stats['mis']
     ck.cov['steps_compared'] = stats['lines']
+
+    # ---- blocking send()/recv() of several application threads against a link thread, under the
+    #      deterministic scheduler: default schedule, single pre-emptions, seeded random schedules
+    tplans = [((1, 128, 1, 128), {'A': [2, 2]}, 100, 15),
+              ((2, 128, 2, 128), {'A': [3, 3], 'B': [2]}, 100, 15),
+              ((1, 128, 3, 128), {'A': [2, 2, 2]}, 100, 15),
+              ((2, 128, 2, 128), {'A': [9, 9]}, 40, 10)]
+    if not quick:
+        tplans = [(c, p_, 5000, 300) for c, p_, _b, _r in tplans] + \
+                 [((3, 128, 2, 128), {'A': [3, 2], 'B': [2, 2]}, 5000, 300), ((1, 128, 1, 128), {'A': [10, 8], 'B': [3]}, 1500, 300)]
+    for tcfg, tplan, budget, nrandom in tplans:
+        ck.count('thread-schedules', threaded_explore(ck, tcfg, tplan, budget, nrandom))
 
     ck.finish(level='proof',
               rule='histories of {send, recv(poll), setsockopt busy, poll acks, dequeue(miu, icv), sendack, deliver} on both '
